@@ -389,6 +389,57 @@ func c05RoundTrip(c *Ctx) {
 			}
 			c.Eval(1)
 		}
+		// second generation: the mutated bitmap is written again and loaded back - into a fresh bitmap and into the
+		// very bitmap it was written from (reload over live contents)
+		if !c.Failed() {
+			var wire2 []byte
+			var err2 error
+			c.Step("second generation: serialize the mutated bitmap, reload it into a fresh bitmap and over itself")
+			if c.Guard(e.name+"/second-generation", func() { wire2, err2 = dm.B.ToBytes() }) {
+				return
+			}
+			if err2 != nil || uint64(len(wire2)) != dm.B.GetSerializedSizeInBytes() {
+				c.Fail(e.name+"/second-generation/ToBytes", "after decoding via %s and mutating: ToBytes err=%v len=%d GetSerializedSizeInBytes=%d", e.name, err2, len(wire2), dm.B.GetSerializedSizeInBytes())
+				return
+			}
+			fresh := roaring.New()
+			var n2 int64
+			if c.Guard(e.name+"/second-generation", func() { n2, err2 = fresh.ReadFrom(bytes.NewReader(wire2)) }) {
+				return
+			}
+			if err2 != nil || n2 != int64(len(wire2)) {
+				c.Fail(e.name+"/second-generation/ReadFrom", "second generation ReadFrom = (%d,%v) for %d bytes", n2, err2, len(wire2))
+				return
+			}
+			if d := checkEq(fresh, dm.M); d != "" {
+				c.Fail(e.name+"/second-generation/content", "second generation (fresh receiver): %s", d)
+				return
+			}
+			if c.Guard(e.name+"/second-generation/reload-over-itself", func() {
+				if r.Chance(0.5) {
+					n2, err2 = dm.B.ReadFrom(bytes.NewReader(wire2))
+				} else {
+					err2 = dm.B.UnmarshalBinary(append([]byte(nil), wire2...))
+					n2 = int64(len(wire2))
+				}
+			}) {
+				return
+			}
+			if err2 != nil || n2 != int64(len(wire2)) {
+				c.Fail(e.name+"/second-generation/reload-over-itself", "reloading a bitmap from its own bytes = (%d,%v) for %d bytes", n2, err2, len(wire2))
+				return
+			}
+			if d := checkEq(dm.B, dm.M); d != "" {
+				c.Fail(e.name+"/second-generation/reload-over-itself/content", "after reloading the bitmap from its own bytes: %s", d)
+				return
+			}
+			op := mutateStep(c, dm, MutOpts{Light: true, NoClone: true, Sig: e.name + "/second-generation/then-"})
+			if d := checkEq(dm.B, dm.M); d != "" && !c.Failed() {
+				c.Fail(e.name+"/second-generation/then-"+op+"/content", "after the reload and %s: %s", op, d)
+				return
+			}
+			c.Eval(4)
+		}
 		// zero-copy buffers must be untouched by those mutations
 		for _, k := range keep {
 			if buf, ok := k.([]byte); ok && !bytes.Equal(buf[:len(wire)], wire) {
